@@ -240,6 +240,33 @@ func (e *Engine) verifyFunc(fc *FuncContract) (res *FuncResult) {
 	}
 	e.oldState = st.clone()
 	entryState := e.oldState
+	e.entryState = entryState
+	// the frame: fresh memory plus the modifies targets
+	{
+		f := &frame{bound: st.alloc, startSeq: e.allocSeq, all: fc.modAll}
+		for _, m := range fc.modifies {
+			v := e.evalClauseValue(st, m)
+			t := m.info.TypeOf(m.expr)
+			switch x := v.(type) {
+			case RefV:
+				if pt, ok := under(t).(*types.Pointer); ok {
+					if _, isArr := under(pt.Elem()).(*types.Array); isArr {
+						f.blocks = append(f.blocks, x.t)
+					} else {
+						f.cells = append(f.cells, cellRange{x.t, Add(x.t, I(int64(e.cells(pt.Elem()))))})
+						e.frameArrayBlocks(f, x.t, pt.Elem())
+					}
+				} else {
+					f.maps = append(f.maps, x.t)
+				}
+			case SliceV:
+				f.blocks = append(f.blocks, x.blk)
+			default:
+				e.fail(m.expr, "unsupported modifies target %T", v)
+			}
+		}
+		e.frame = f
+	}
 	var results []*types.Var
 	for k := 0; k < sig.Results().Len(); k++ {
 		r := sig.Results().At(k)
@@ -285,9 +312,11 @@ func (e *Engine) verifyFunc(fc *FuncContract) (res *FuncResult) {
 			if ens.assume {
 				continue
 			}
-			g := e.evalClause(r.st, ens, env)
+			m := e.beginScope()
 			rs := r.st.clone()
+			g := e.evalClause(rs, ens, env)
 			e.oblige(rs, "post", ens.text, g, r.pos, ens)
+			e.endScope(m)
 		}
 	}
 	if !fc.nopanic {
@@ -375,4 +404,18 @@ func freeVars(info *types.Info, lit *ast.FuncLit) []*types.Var {
 	})
 	sortVars(out)
 	return out
+}
+
+func (e *Engine) frameArrayBlocks(f *frame, base T, t types.Type) {
+	switch u := under(t).(type) {
+	case *types.Array:
+		f.blocks = append(f.blocks, base)
+	case *types.Struct:
+		off := 0
+		for i := 0; i < u.NumFields(); i++ {
+			ft := u.Field(i).Type()
+			e.frameArrayBlocks(f, Add(base, I(int64(off))), ft)
+			off += e.cells(ft)
+		}
+	}
 }
